@@ -57,7 +57,15 @@ class Mon:
 
     def apply(self, f, x):
         b = bytearray(x)
-        r = f(b)
+        # every third call the caller keeps a view of its buffer alive (a slice of a larger packet buffer is
+        # handed around like that): "in place" means the bytearray is never resized, not even temporarily
+        self.n = getattr(self, "n", 0) + 1
+        if self.n % 3 == 0:
+            with memoryview(b):
+                r = f(b)
+            self.rec.count("calls-with-a-live-view-of-the-buffer")
+        else:
+            r = f(b)
         if r is not None:
             self.rec.violation("in-place", "%s returned %r instead of None" % (f.__name__, r), {"input": x})
         return bytes(b)
